@@ -19,6 +19,9 @@ RULE = ("one run per case: optional pre-existing current file (append), builder,
         "rotation decided by the criterion; distinct = distinct case text")
 
 
+VIA_LOGGER = 0.25   # share of the file-writer histories that is run once more through Logger / LoggerHandle
+
+
 def corpus():
     out = []
     cfg = g.Cfg(crit="s10", naming="num")
